@@ -275,6 +275,9 @@ def effective_cmp(atom, pol):
     op, l, r = c
     if not pol:
         op = NEG[op]
+    if const_val(l) is not None and const_val(r) is None:
+        # `0 == x`, `nullptr != p`: constants are put on the right so a re-spelled comparison keeps its verdict
+        op, l, r = SWAP[op], r, l
     a = strip_cast(atom)
     if isinstance(a, dict) and a.get("unsigned"):
         # on unsigned operands x <= 0 is x == 0, x > 0 is x != 0, x < 1 is x == 0, x >= 1 is x != 0
